@@ -972,3 +972,59 @@ func init() {
 	externals["(time.Time).UTC"] = func(ex *Exec, fr *frame, a []value) value { return a[0] }
 	externals["(time.Duration).String"] = func(ex *Exec, fr *frame, a []value) value { return "duration" }
 }
+
+func init() {
+	// errors.Is without reflectlite
+	externals["errors.Is"] = func(ex *Exec, fr *frame, a []value) value {
+		err, target := a[0].(iface), a[1].(iface)
+		if err.t == nil || target.t == nil {
+			return err.t == nil && target.t == nil
+		}
+		comparable := types.Comparable(target.t)
+		for depth := 0; depth < 64 && err.t != nil; depth++ {
+			if comparable && sameType(err.t, target.t) {
+				if ex.truth(fromTerm(ex.equalsTerm(err.t, err.v, target.v), types.Bool)) {
+					return true
+				}
+			}
+			ms := ex.sh.prog.MethodSets.MethodSet(err.t)
+			var next *iface
+			multi := false
+			for i := 0; i < ms.Len(); i++ {
+				sel := ms.At(i)
+				sig := sel.Type().(*types.Signature)
+				switch sel.Obj().Name() {
+				case "Is":
+					if sig.Params().Len() == 1 && sig.Results().Len() == 1 {
+						r := ex.call(fr, token.NoPos, ex.sh.prog.MethodValue(sel), []value{err.v, target})
+						if ex.truth(r) {
+							return true
+						}
+					}
+				case "Unwrap":
+					if sig.Params().Len() == 0 && sig.Results().Len() == 1 {
+						r := ex.call(fr, token.NoPos, ex.sh.prog.MethodValue(sel), []value{err.v})
+						switch rv := r.(type) {
+						case iface:
+							next = &rv
+						case slice:
+							multi = true
+							for j := 0; j < rv.len; j++ {
+								if e, ok := rv.get(j).(iface); ok && e.t != nil {
+									if ex.truth(externals["errors.Is"](ex, fr, []value{e, target})) {
+										return true
+									}
+								}
+							}
+						}
+					}
+				}
+			}
+			if next == nil || multi {
+				return false
+			}
+			err = *next
+		}
+		return false
+	}
+}
